@@ -99,7 +99,12 @@ fn child_body(rng: &mut Rng, breadth: Word, tag: &mut String) -> Vec<Op> {
     let mut v = Vec::new();
     let n_parts = 1 + rng.usize(3);
     for _ in 0..n_parts {
-        match rng.below(14) {
+        match rng.below(15) {
+            13 => {
+                // finish the innermost inherited loop frame, then look at the enclosing one
+                tag.push_str("end-inherited-loop,");
+                v.extend([REPE(), PUSH(1), ALOC(), POP(), REPC(), PUSH(0), ALOC(), PUSH(1), SUB(), STO()]);
+            }
             0 | 1 => {
                 // memory = [i]
                 tag.push_str("store-index,");
@@ -193,7 +198,8 @@ pub fn gen_forkjoin(rng: &mut Rng, light: bool) -> VmCase {
         4 => Word::MIN,
         _ => 2 + rng.range(0, if light { 10 } else { 62 }),
     };
-    let in_loop = rng.chance(1, 4);
+    let in_loop = rng.chance(1, 3);
+    let nested_loop = in_loop && rng.chance(1, 2);
     let mut ops = Vec::new();
     // parent state
     for _ in 0..rng.usize(4) {
@@ -204,6 +210,10 @@ pub fn gen_forkjoin(rng: &mut Rng, light: bool) -> VmCase {
     if in_loop {
         tag.push_str("in-repeat,");
         ops.extend([PUSH(2 + rng.range(0, 1)), PUSH(rng.range(0, 1)), REP()]);
+    }
+    if nested_loop {
+        tag.push_str("in-nested-repeat,");
+        ops.extend([PUSH(1 + rng.range(0, 1)), PUSH(rng.range(0, 1)), REP()]);
     }
     ops.push(PUSH(breadth));
     ops.push(COM());
@@ -216,6 +226,9 @@ pub fn gen_forkjoin(rng: &mut Rng, light: bool) -> VmCase {
     // suffix
     for _ in 0..rng.usize(3) {
         ops.push(PUSH(rng.range(0, 9)));
+    }
+    if nested_loop {
+        ops.push(REPE());
     }
     if in_loop {
         ops.push(REPE());
